@@ -24,6 +24,9 @@ worker() {
   while read -r d; do
     i=$((i+1)); [ $(( i % W )) -eq "$w" ] || continue
     id=$(basename "$d"); p=${id%%-*}
+    # (a change that breaks its property through behaviour another property's
+    # check watches names that check in seeded/<id>/check)
+    [ -f "$d/check" ] && p=$(cat "$d/check")
     cd "$RW" || return
     if ! git apply --3way "$d/patch.diff" 2>/dev/null && ! git apply "$d/patch.diff" 2>/dev/null; then
       echo "$id :: APPLY-FAILED"; git reset -q --hard HEAD; continue
@@ -37,7 +40,7 @@ worker() {
     cd "$RW" && git reset -q --hard HEAD && git clean -fdq
     nv=$(echo "$out" | grep -c '^VIOLATION')
     if [ "$rc" -ne 0 ] && { [ "$nv" -gt 0 ] || [ "$rc" -gt 1 ]; }; then
-      echo "$id :: CAUGHT rc=$rc violations_printed=$nv :: $(echo "$out" | grep '^VIOLATION' | head -1 | cut -c1-200 | sed "s#$VD#/verif#g")"
+      echo "$id :: CAUGHT by=$p rc=$rc violations_printed=$nv :: $(echo "$out" | grep '^VIOLATION' | head -1 | cut -c1-200 | sed "s#$VD#/verif#g")"
     else
       echo "$id :: MISSED rc=$rc :: $(echo "$out" | tail -2 | cut -c1-160 | tr '\n' ' ')"
     fi
